@@ -121,6 +121,8 @@ class Parser:
             TokenType.FLOAT: self.parse_float_literal,
             TokenType.FUNCTION: self.parse_function_extension,
             TokenType.INT: self.parse_integer_literal,
+            TokenType.LPAREN: self.parse_grouped_expression,
+            TokenType.NOT: self.parse_prefix_expression,
             TokenType.NULL: self.parse_null,
             TokenType.ROOT: self.parse_root_query,
             TokenType.CURRENT: self.parse_relative_query,
